@@ -4,7 +4,7 @@
     [GenEquivDec.v] / [GenEquivEnc.v] with the model theorem of the property; its subject is the
     source-derived term. *)
 From SSZ Require Import Base RustSem Offsets Encoder Builder Types Codec BaseFacts OffsetsFacts
-     Layout ListDecFacts AppendFacts NoPanic Canon OrderFacts RoundTrip LeafIface LeafProof Generated GenEquiv GenEquivDec GenEquivEnc.
+     Layout ListDecFacts AppendFacts NoPanic Canon OrderFacts RoundTrip LeafIface LeafProof Strict Generated GenEquiv GenEquivDec GenEquivEnc.
 From Coq Require Import ZArith ZifyN ZifyBool ZifyNat Lia.
 Open Scope N_scope.
 
@@ -155,6 +155,40 @@ Proof.
   exact (rt_facts leaf_facts C (TList t) Hrt (VList vs) Hty Hlen).
 Qed.
 
+(** ** C19 on the source-derived [BTreeSet<T>] codec: decoding is the list decoder followed by collection
+    (ascending, a later equal element wins); encoding is the element list *)
+Theorem Src_C19_set_decodes_by_collection t bs :
+  phys bs ->
+  omap VList (Gen.btreeset_from_ssz_bytes (d_is_fixed t) (d_fixed_len t) (dec t) val_cmp bs) =
+  match Gen.vec_from_ssz_bytes (d_is_fixed t) (d_fixed_len t) (dec t) bs with
+  | Ok es => Ok (VList (collect_entries false es))
+  | Err => Err | Panic => Panic
+  end.
+Proof.
+  intro Hp. rewrite gen_btreeset_is_dec_TSet by apply Hp.
+  pose proof (gen_vec_is_dec_TList t bs ltac:(apply Hp)) as E.
+  rewrite Strict.dec_set_is_collect, <- E.
+  destruct (Gen.vec_from_ssz_bytes (d_is_fixed t) (d_fixed_len t) (dec t) bs); reflexivity.
+Qed.
+
+Theorem Src_C19_set_result_sorted kt bs es :
+  key_type kt = true -> phys bs ->
+  Gen.vec_from_ssz_bytes (d_is_fixed kt) (d_fixed_len kt) (dec kt) bs = Ok es -> keys_typed kt false es ->
+  exists vs, Gen.btreeset_from_ssz_bytes (d_is_fixed kt) (d_fixed_len kt) (dec kt) val_cmp bs = Ok vs /\
+    strictly_sorted false vs = true /\ (forall e, In e vs -> In e es).
+Proof.
+  intros Hk Hp Hv Hty.
+  pose proof (Src_C19_set_decodes_by_collection kt bs Hp) as E. rewrite Hv in E.
+  destruct (Gen.btreeset_from_ssz_bytes (d_is_fixed kt) (d_fixed_len kt) (dec kt) val_cmp bs) as [vs| |]; cbn [omap] in E; try discriminate.
+  injection E as ->. exists (collect_entries false es). split; [reflexivity|].
+  split; [exact (collect_is_sorted kt false es Hk Hty) | intros e; apply collect_incl].
+Qed.
+
+Theorem Src_C19_set_encodes_as_list t vs buf :
+  Gen.btreeset_ssz_append (e_is_fixed t) (e_fixed_len t) (app_of t) vs buf
+  = Gen.vec_ssz_append (e_is_fixed t) (e_fixed_len t) (app_of t) vs buf.
+Proof. reflexivity. Qed.
+
 Print Assumptions Src_C09_list_tiles.
 Print Assumptions Src_C16_over_limit.
 Print Assumptions Src_C16_within_limit.
@@ -163,3 +197,6 @@ Print Assumptions Src_C05_decoders_no_panic.
 Print Assumptions Src_C15_option.
 Print Assumptions Src_C02_vec_canonical.
 Print Assumptions Src_C01_vec_round_trip.
+Print Assumptions Src_C19_set_decodes_by_collection.
+Print Assumptions Src_C19_set_result_sorted.
+Print Assumptions Src_C19_set_encodes_as_list.
